@@ -21,7 +21,13 @@ pub enum Mode { ForEach, ForEachAsync, Enqueue }
 #[derive(Clone, Copy, Debug, PartialEq)]
 pub enum StopAt { NetEvent(usize), Signal(usize), BeforeStart, External(u64) }
 
-pub struct Sc { pub mode: Mode, pub pre_datagrams: usize, pub live_datagrams: usize, pub signals: usize, pub stop: StopAt, pub cb_micros: u64 }
+pub struct Sc { pub mode: Mode, pub pre_datagrams: usize, pub live_datagrams: usize, pub signals: usize, pub stop: StopAt, pub cb_micros: u64,
+    /// before the scripted stop() inside a callback, make the OTHER thread queue up for the callback:
+    /// a datagram (when stopping from a signal) or a signal (when stopping from a network event) is
+    /// injected and the callback lingers, so that the other thread is blocked on the lock when stop() runs
+    pub inflight: bool,
+    /// a whole short-lived FramedTcp client session (connect, three messages, close) completes before the listener call
+    pub pre_session: bool }
 
 struct Shared {
     in_cb: AtomicBool,
@@ -31,6 +37,7 @@ struct Shared {
     calls_after_stop: AtomicU64,
     net_order: Mutex<Vec<u64>>,    // payload numbers of network messages in delivery order
     log: Mutex<Vec<String>>,
+    inject: Mutex<Option<(UdpSocket, std::net::SocketAddr)>>,
 }
 
 fn on_event(sh: &Shared, handler: &NodeHandler<u64>, sc: &Sc, kind: char, payload: u64) {
@@ -48,6 +55,11 @@ fn on_event(sh: &Shared, handler: &NodeHandler<u64>, sc: &Sc, kind: char, payloa
         _ => false,
     };
     if stop_now && sh.stopped_at_call.load(Ordering::SeqCst) == usize::MAX {
+        if sc.inflight {
+            if kind == 's' { if let Some((s, addr)) = sh.inject.lock().unwrap().as_ref() { let _ = s.send_to(&900_001u64.to_le_bytes(), addr); } }
+            else { handler.signals().send(777_777); }
+            std::thread::sleep(Duration::from_millis(40));
+        }
         handler.stop();
         sh.stopped_at_call.store(call, Ordering::SeqCst);
         verif::trace("cb_stop", 0);
@@ -59,12 +71,23 @@ fn on_event(sh: &Shared, handler: &NodeHandler<u64>, sc: &Sc, kind: char, payloa
 pub fn run_scenario(sc: &Sc, out: &mut Out) -> Option<String> {
     let _ = verif::take();
     let (handler, listener) = node::split::<u64>();
-    let sh = Arc::new(Shared { in_cb: AtomicBool::new(false), overlaps: AtomicU64::new(0), calls: AtomicUsize::new(0), stopped_at_call: AtomicUsize::new(usize::MAX), calls_after_stop: AtomicU64::new(0), net_order: Mutex::new(vec![]), log: Mutex::new(vec![]) });
+    let sh = Arc::new(Shared { in_cb: AtomicBool::new(false), overlaps: AtomicU64::new(0), calls: AtomicUsize::new(0), stopped_at_call: AtomicUsize::new(usize::MAX), calls_after_stop: AtomicU64::new(0), net_order: Mutex::new(vec![]), log: Mutex::new(vec![]), inject: Mutex::new(None) });
     let (_lid, addr) = handler.network().listen(Transport::Udp, "127.0.0.1:0").unwrap();
     let sock = UdpSocket::bind("127.0.0.1:0").unwrap();
+    *sh.inject.lock().unwrap() = Some((UdpSocket::bind("127.0.0.1:0").unwrap(), addr));
     // activity before the listener call: numbered datagrams, paced so that they are certainly cached
     for i in 0..sc.pre_datagrams { sock.send_to(&(i as u64).to_le_bytes(), addr).unwrap(); std::thread::sleep(Duration::from_micros(300)); }
-    if sc.pre_datagrams > 0 { std::thread::sleep(Duration::from_millis(70)); } // > one SAMPLING_TIMEOUT
+    if sc.pre_session {
+        use std::io::Write;
+        let (_fl, faddr) = handler.network().listen(Transport::FramedTcp, "127.0.0.1:0").unwrap();
+        let mut c = std::net::TcpStream::connect(faddr).unwrap();
+        let mut bytes = vec![];
+        for k in 0..3u64 { bytes.push(8u8); bytes.extend_from_slice(&(500_000 + k).to_le_bytes()); }
+        c.write_all(&bytes).unwrap();
+        std::thread::sleep(Duration::from_millis(30));
+        drop(c);
+    }
+    if sc.pre_datagrams > 0 || sc.pre_session { std::thread::sleep(Duration::from_millis(70)); } // > one SAMPLING_TIMEOUT
     if sc.stop == StopAt::BeforeStart { handler.stop(); verif::trace("ext_stop", 0); }
     // signals queued before the start too
     for k in 0..sc.signals { match k % 3 { 0 => handler.signals().send(k as u64), 1 => handler.signals().send_with_priority(k as u64), _ => { handler.signals().send_with_timer(k as u64, Duration::from_millis(2 * k as u64)); } } }
@@ -73,6 +96,8 @@ pub fn run_scenario(sc: &Sc, out: &mut Out) -> Option<String> {
     let t_start = Instant::now();
     let cb = { let (sh, handler, sc2) = (sh.clone(), handler.clone(), Sc { ..*sc }); move |ev: NodeEvent<u64>| match ev {
         NodeEvent::Network(NetEvent::Message(_, d)) => { let p = if d.len() == 8 { u64::from_le_bytes(d.try_into().unwrap()) } else { 999_999 }; on_event(&sh, &handler, &sc2, 'n', p) }
+        NodeEvent::Network(NetEvent::Accepted(..)) => on_event(&sh, &handler, &sc2, 'n', 888_001),
+        NodeEvent::Network(NetEvent::Disconnected(..)) => on_event(&sh, &handler, &sc2, 'n', 888_002),
         NodeEvent::Network(_) => on_event(&sh, &handler, &sc2, 'n', 888_888),
         NodeEvent::Signal(s) => on_event(&sh, &handler, &sc2, 's', s),
     } };
@@ -89,6 +114,8 @@ pub fn run_scenario(sc: &Sc, out: &mut Out) -> Option<String> {
                     loop {
                         match receiver.receive_timeout(Duration::from_millis(20)) {
                             Some(node::StoredNodeEvent::Network(node::StoredNetEvent::Message(_, d))) => { let p = if d.len() == 8 { u64::from_le_bytes(d[..].try_into().unwrap()) } else { 999_999 }; on_event(&sh2, &handler2, &sc3, 'n', p) }
+                            Some(node::StoredNodeEvent::Network(node::StoredNetEvent::Accepted(..))) => on_event(&sh2, &handler2, &sc3, 'n', 888_001),
+                            Some(node::StoredNodeEvent::Network(node::StoredNetEvent::Disconnected(..))) => on_event(&sh2, &handler2, &sc3, 'n', 888_002),
                             Some(node::StoredNodeEvent::Network(_)) => on_event(&sh2, &handler2, &sc3, 'n', 888_888),
                             Some(node::StoredNodeEvent::Signal(s)) => on_event(&sh2, &handler2, &sc3, 's', s),
                             None => if !handler2.is_running() { break; },
@@ -118,7 +145,7 @@ pub fn run_scenario(sc: &Sc, out: &mut Out) -> Option<String> {
     if ret { lt.join().unwrap(); }
     let recs = verif::take();
     // ---- implementation-level oracles ----------------------------------------------------------
-    let name = format!("{:?} pre={} live={} signals={} stop={:?}", sc.mode, sc.pre_datagrams, sc.live_datagrams, sc.signals, sc.stop);
+    let name = format!("{:?} pre={} live={} signals={} stop={:?}{}", sc.mode, sc.pre_datagrams, sc.live_datagrams, sc.signals, sc.stop, if sc.inflight { " with the other thread queued on the callback lock" } else { "" });
     if sh.overlaps.load(Ordering::SeqCst) > 0 { out.violation(&format!("[C05] the event callback was entered while another invocation was still running ({} overlaps) in {}", sh.overlaps.load(Ordering::SeqCst), name)); }
     if sc.mode != Mode::Enqueue {
         let after = sh.calls_after_stop.load(Ordering::SeqCst);
@@ -130,7 +157,16 @@ pub fn run_scenario(sc: &Sc, out: &mut Out) -> Option<String> {
     // C15: per the single sender the payload numbers are increasing: delivered in the order they happened,
     // cached ones (sent >= 70 ms before the listener call) first and complete unless the node was stopped
     let order = sh.net_order.lock().unwrap().clone();
-    let msgs: Vec<u64> = order.iter().cloned().filter(|p| *p < 800_000).collect();
+    let msgs: Vec<u64> = order.iter().cloned().filter(|p| *p < 400_000).collect();
+    if sc.pre_session {
+        let early = sh.stopped_at_call.load(Ordering::SeqCst) != usize::MAX || sc.stop == StopAt::BeforeStart;
+        // the session that completed before the listener call: Accepted, its three messages one by one, Disconnected
+        let session: Vec<u64> = order.iter().cloned().filter(|p| (500_000..500_010).contains(p) || *p == 888_001 || *p == 888_002 || *p == 999_999).collect();
+        let expected = vec![888_001u64, 500_000, 500_001, 500_002, 888_002];
+        if !expected.starts_with(&session) || (!early && session != expected) {
+            out.violation(&format!("[C15] a FramedTcp client connected, sent three 8-byte messages and closed before the listener call; delivered for it (888001=Accepted, 888002=Disconnected, 999999=a message of another size): {:?}, expected [888001, 500000, 500001, 500002, 888002]{} ({:?})", session, if early { " or, the node having been stopped, a prefix of it" } else { "" }, sc.mode));
+        }
+    }
     if msgs.windows(2).any(|w| w[0] >= w[1]) { out.violation(&format!("[C15] network events delivered out of the order in which they happened: {:?} ({})", &msgs[..msgs.len().min(20)], name)); }
     let stopped_early = sh.stopped_at_call.load(Ordering::SeqCst) != usize::MAX || sc.stop == StopAt::BeforeStart;
     if !stopped_early || matches!(sc.stop, StopAt::NetEvent(k) if k >= sc.pre_datagrams) {
@@ -259,19 +295,27 @@ pub fn run(a: &Args) {
     let mut r = Rng::new(a.seed);
     let mut scs: Vec<Sc> = vec![];
     for mode in [Mode::ForEach, Mode::ForEachAsync, Mode::Enqueue] {
-        scs.push(Sc { mode, pre_datagrams: 4, live_datagrams: 6, signals: 6, stop: StopAt::BeforeStart, cb_micros: 0 });
-        scs.push(Sc { mode, pre_datagrams: 0, live_datagrams: 0, signals: 0, stop: StopAt::BeforeStart, cb_micros: 0 });
+        scs.push(Sc { mode, pre_datagrams: 4, live_datagrams: 6, signals: 6, stop: StopAt::BeforeStart, cb_micros: 0, inflight: false, pre_session: false });
+        scs.push(Sc { mode, pre_datagrams: 0, live_datagrams: 0, signals: 0, stop: StopAt::BeforeStart, cb_micros: 0, inflight: false, pre_session: false });
         let max_idx = if a.thorough { 12 } else { 5 };
         for k in 0..max_idx {
-            scs.push(Sc { mode, pre_datagrams: 5, live_datagrams: 8, signals: 6, stop: StopAt::NetEvent(k), cb_micros: 200 });
-            scs.push(Sc { mode, pre_datagrams: 3, live_datagrams: 10, signals: 8, stop: StopAt::Signal(k), cb_micros: 300 });
+            scs.push(Sc { mode, pre_datagrams: 5, live_datagrams: 8, signals: 6, stop: StopAt::NetEvent(k), cb_micros: 200, inflight: false, pre_session: false });
+            scs.push(Sc { mode, pre_datagrams: 3, live_datagrams: 10, signals: 8, stop: StopAt::Signal(k), cb_micros: 300, inflight: false, pre_session: false });
         }
-        scs.push(Sc { mode, pre_datagrams: 20, live_datagrams: 40, signals: 20, stop: StopAt::NetEvent(45), cb_micros: 100 });
-        scs.push(Sc { mode, pre_datagrams: 6, live_datagrams: 30, signals: 30, stop: StopAt::External(40), cb_micros: 500 });
-        scs.push(Sc { mode, pre_datagrams: 0, live_datagrams: 30, signals: 9, stop: StopAt::Signal(8), cb_micros: 2000 });
+        for k in 0..(if a.thorough { 6 } else { 2 }) {
+            scs.push(Sc { mode, pre_datagrams: 2, live_datagrams: 6, signals: 6, stop: StopAt::Signal(2 + k), cb_micros: 100, inflight: true, pre_session: false });
+            scs.push(Sc { mode, pre_datagrams: 2, live_datagrams: 8, signals: 4, stop: StopAt::NetEvent(3 + k), cb_micros: 100, inflight: true, pre_session: false });
+        }
+        scs.push(Sc { mode, pre_datagrams: 3, live_datagrams: 5, signals: 4, stop: StopAt::External(150), cb_micros: 0, inflight: false, pre_session: true });
+        scs.push(Sc { mode, pre_datagrams: 0, live_datagrams: 4, signals: 0, stop: StopAt::NetEvent(8), cb_micros: 100, inflight: false, pre_session: true });
+        // a long start-up cache, a callback slow enough for the live traffic to arrive during the replay
+        scs.push(Sc { mode, pre_datagrams: 300, live_datagrams: 30, signals: 4, stop: StopAt::NetEvent(329), cb_micros: 150, inflight: false, pre_session: false });
+        scs.push(Sc { mode, pre_datagrams: 20, live_datagrams: 40, signals: 20, stop: StopAt::NetEvent(45), cb_micros: 100, inflight: false, pre_session: false });
+        scs.push(Sc { mode, pre_datagrams: 6, live_datagrams: 30, signals: 30, stop: StopAt::External(40), cb_micros: 500, inflight: false, pre_session: false });
+        scs.push(Sc { mode, pre_datagrams: 0, live_datagrams: 30, signals: 9, stop: StopAt::Signal(8), cb_micros: 2000, inflight: false, pre_session: false });
         for _ in 0..(if a.thorough { 20 } else { 2 }) {
             scs.push(Sc { mode, pre_datagrams: r.below(12) as usize, live_datagrams: r.below(30) as usize, signals: r.below(15) as usize,
-                stop: if r.chance(1, 2) { StopAt::NetEvent(r.below(20) as usize) } else { StopAt::Signal(r.below(10) as usize) }, cb_micros: *r.pick(&[0u64, 100, 1000]) });
+                stop: if r.chance(1, 2) { StopAt::NetEvent(r.below(20) as usize) } else { StopAt::Signal(r.below(10) as usize) }, cb_micros: *r.pick(&[0u64, 100, 1000]), inflight: r.chance(1, 2), pre_session: r.chance(1, 3) });
         }
     }
     // scenarios share the process-wide hook trace: one at a time
